@@ -88,6 +88,7 @@ package keeper
 // Amounts with 12 decimals ("fixed12") are loya * 10^6; the part below one loya is the remainder that goes to Dust.
 
 //@ func (k Keeper).RefundDisputeFee(ctx, feePayer, payerInfo, totalFeesPaid, feeMinusBurn, hashId) (rem, err)
+//@ requires [stake_records_well_formed] (forall h bytes :: has(reporter.DisputedDelegationAmounts, h) ==> reporter.DisputedDelegationAmounts[h].Total > 0 && forall j in [0, len(reporter.DisputedDelegationAmounts[h].TokenOrigins)) :: reporter.DisputedDelegationAmounts[h].TokenOrigins[j] != nil) && (forall h bytes :: has(reporter.FeePaidFromStake, h) ==> reporter.FeePaidFromStake[h].Total > 0 && forall j in [0, len(reporter.FeePaidFromStake[h].TokenOrigins)) :: reporter.FeePaidFromStake[h].TokenOrigins[j] != nil)
 //@ requires [fees_positive] totalFeesPaid > 0 && payerInfo.Amount >= 0 && feeMinusBurn >= 0
 //@ requires [payer_is_not_the_dispute_account] acc(feePayer) != module("dispute")
 //@ modifies bank.bal, reporter.*, staking.*
@@ -97,6 +98,7 @@ package keeper
 //@ ensures [supply_unchanged] bank.supply == old(bank.supply)
 
 //@ func (k msgServer).WithdrawFeeRefund(ctx, msg) (resp, err)
+//@ requires [stake_records_well_formed] (forall h bytes :: has(reporter.DisputedDelegationAmounts, h) ==> reporter.DisputedDelegationAmounts[h].Total > 0 && forall j in [0, len(reporter.DisputedDelegationAmounts[h].TokenOrigins)) :: reporter.DisputedDelegationAmounts[h].TokenOrigins[j] != nil) && (forall h bytes :: has(reporter.FeePaidFromStake, h) ==> reporter.FeePaidFromStake[h].Total > 0 && forall j in [0, len(reporter.FeePaidFromStake[h].TokenOrigins)) :: reporter.FeePaidFromStake[h].TokenOrigins[j] != nil)
 //@ requires [msg_present] msg != nil
 //@ requires [dust_is_sub_unit] has(dispute.Dust) ==> 0 <= dispute.Dust && dispute.Dust < 1000000
 //@ requires [payer_is_not_the_dispute_account] addrstr(msg.PayerAddress) != module("dispute")
@@ -110,12 +112,14 @@ package keeper
 //@ ensures [supply_only_shrinks_by_burnt_dust] bank.supply <= old(bank.supply)
 
 //@ func (k Keeper).ReturnSlashedTokens(ctx, dispute) (err)
+//@ requires [stake_records_well_formed] (forall h bytes :: has(reporter.DisputedDelegationAmounts, h) ==> reporter.DisputedDelegationAmounts[h].Total > 0 && forall j in [0, len(reporter.DisputedDelegationAmounts[h].TokenOrigins)) :: reporter.DisputedDelegationAmounts[h].TokenOrigins[j] != nil) && (forall h bytes :: has(reporter.FeePaidFromStake, h) ==> reporter.FeePaidFromStake[h].Total > 0 && forall j in [0, len(reporter.FeePaidFromStake[h].TokenOrigins)) :: reporter.FeePaidFromStake[h].TokenOrigins[j] != nil)
 //@ modifies bank.bal, reporter.*, staking.*
 //@ ensures [dispute_account_pays_the_slash_amount_to_the_bonded_pool] err == nil && module("dispute") != module("bonded_tokens_pool") && module("dispute") != module("not_bonded_tokens_pool") ==> bank.bal[module("dispute")] == old(bank.bal[module("dispute")]) - dispute.SlashAmount
 //@ ensures [supply_unchanged] bank.supply == old(bank.supply)
 //@ ensures [same_amount_returned_to_the_stake_ledger] err == nil ==> arg(ReturnSlashedTokens, amt) == dispute.SlashAmount && arg(ReturnSlashedTokens, hashId) == dispute.HashId
 
 //@ func (k Keeper).ExecuteVote(ctx, id) (err)
+//@ requires [stake_records_well_formed] (forall h bytes :: has(reporter.DisputedDelegationAmounts, h) ==> reporter.DisputedDelegationAmounts[h].Total > 0 && forall j in [0, len(reporter.DisputedDelegationAmounts[h].TokenOrigins)) :: reporter.DisputedDelegationAmounts[h].TokenOrigins[j] != nil) && (forall h bytes :: has(reporter.FeePaidFromStake, h) ==> reporter.FeePaidFromStake[h].Total > 0 && forall j in [0, len(reporter.FeePaidFromStake[h].TokenOrigins)) :: reporter.FeePaidFromStake[h].TokenOrigins[j] != nil)
 //@ requires [escrow_distinct_from_pools] module("dispute") != module("bonded_tokens_pool") && module("dispute") != module("not_bonded_tokens_pool")
 //@ requires [amounts_non_negative] has(dispute.Disputes, id) ==> dispute.Disputes[id].BurnAmount >= 0 && dispute.Disputes[id].SlashAmount >= dispute.Disputes[id].BurnAmount
 //@ requires [vote_result_is_a_defined_value] has(dispute.Votes, id) ==> 0 <= dispute.Votes[id].VoteResult && dispute.Votes[id].VoteResult <= 6
